@@ -356,4 +356,176 @@ theorem roundNE_spec (q : Rat) (hq : q ≠ 0) (e : Int) (he : minExp ≤ e) (hma
   have habs : (if decide (q < 0) = true then -q else q) = absR q := rfl
   rw [habs, hulp, if_neg hmne, if_neg (by grind)]
 
+
+/-- Every non-zero rational lies in exactly one binade. -/
+theorem exists_binade (a : Rat) (ha : 0 < a) :
+    ∃ l : Int, pow2 l ≤ a ∧ a < pow2 (l + 1) := by
+  obtain ⟨hn, hd, hnd⟩ := pos_num_den a ha
+  obtain ⟨hl1, hl2⟩ := floorLog2_spec _ _ hn hd
+  have hdpos : (0 : Rat) < (a.den : Rat) := Rat.natCast_pos.mpr hd
+  rw [hnd] at hl1 hl2
+  exact ⟨_, Rat.le_of_mul_le_mul_right hl1 hdpos, Rat.lt_of_mul_lt_mul_right hl2 (Rat.le_of_lt hdpos)⟩
+
+theorem absR_eq (q : Rat) : (q < 0 → absR q = -q) ∧ (¬ q < 0 → absR q = q) := by
+  unfold absR
+  constructor
+  · intro h; rw [if_pos (by simpa using h)]
+  · intro h; rw [if_neg (by simpa using h)]
+
+/-- Relative error of rounding in the normal range: `|fl(q) − q| ≤ |q|·2^-53`, the sign is
+    kept and the result is finite. -/
+theorem roundNE_relErr (q : Rat) (hq : q ≠ 0) (hlo : pow2 (-1022) ≤ absR q) (hhi : absR q < pow2 1023) :
+    ∃ v : Rat, roundNE q = .fin v ∧ absR (v - q) * pow2 53 ≤ absR q ∧
+      (0 < q → 0 < v) ∧ (q < 0 → v < 0) := by
+  have ha := absR_pos q hq
+  obtain ⟨l, hl1, hl2⟩ := exists_binade (absR q) ha
+  have hl_lo : -1022 ≤ l := by
+    by_cases h : l < -1022
+    · have := pow2_le_of_le (show l + 1 ≤ -1022 by omega); grind
+    · omega
+  have hl_hi : l ≤ 1022 := by
+    by_cases h : 1022 < l
+    · have := pow2_le_of_le (show (1023 : Int) ≤ l by omega); grind
+    · omega
+  have e1 : l - 52 + 52 = l := by omega
+  have e2 : l - 52 + 53 = l + 1 := by omega
+  obtain ⟨hr, hm⟩ := roundNE_spec q hq (l - 52) (by unfold minExp; omega) (by omega)
+    (by rw [e1]; exact hl1) (by rw [e2]; exact hl2)
+  have hP := pow2_pos (l - 52)
+  have hs0 : 0 ≤ absR q / pow2 (l - 52) := by
+    rw [Rat.div_def]; exact Rat.le_of_lt (Rat.mul_pos ha (Rat.inv_pos.mpr hP))
+  obtain ⟨hm1, hm2, _⟩ := roundHalfEven_spec (absR q / pow2 (l - 52)) hs0
+  have hsP : absR q / pow2 (l - 52) * pow2 (l - 52) = absR q := Rat.div_mul_cancel (by grind)
+  have h52 : pow2 l = pow2 52 * pow2 (l - 52) := by
+    have := pow2_add_nat (l - 52) 52
+    have h52c : pow2 52 = ((2 ^ 52 : Nat) : Rat) := pow2_of_nonneg 52 (by omega)
+    have e : l - 52 + ((52 : Nat) : Int) = l := by omega
+    rw [e] at this; rw [h52c]; exact this
+  have h53 : pow2 53 = 2 * pow2 52 := pow2_succ 52
+  have hp52 := pow2_pos 52
+  generalize hM : (roundHalfEven (absR q / pow2 (l - 52)) : Rat) = M at *
+  generalize hS : absR q / pow2 (l - 52) = S at *
+  generalize hPd : pow2 (l - 52) = P at *
+  -- products
+  have k1 : M * P ≤ (S + 1/2) * P := Rat.mul_le_mul_of_nonneg_right hm1 (Rat.le_of_lt hP)
+  have k2 : (S - 1/2) * P ≤ M * P := Rat.mul_le_mul_of_nonneg_right hm2 (Rat.le_of_lt hP)
+  have k3 : (S + 1/2) * P = absR q + P / 2 := by rw [← hsP]; grind
+  have k4 : (S - 1/2) * P = absR q - P / 2 := by rw [← hsP]; grind
+  rw [k3] at k1; rw [k4] at k2
+  have k5 : pow2 52 * P ≤ M * P := Rat.mul_le_mul_of_nonneg_right hm (Rat.le_of_lt hP)
+  have hMPpos : 0 < M * P := by
+    have := Rat.mul_pos hp52 hP; grind
+  -- (M*P - a) * 2^53 ≤ a  and  (a - M*P) * 2^53 ≤ a   [since P/2 * 2^53 = 2^52 * P ≤ a]
+  have k6 : P / 2 * pow2 53 = pow2 52 * P := by rw [h53]; grind
+  have k7 : pow2 52 * P ≤ absR q := by rw [← h52]; exact hl1
+  generalize hV : M * P = V at *
+  have hA1 : (V - absR q) * pow2 53 ≤ absR q := by
+    have hp53 := pow2_pos 53
+    have : (V - absR q) * pow2 53 ≤ P / 2 * pow2 53 :=
+      Rat.mul_le_mul_of_nonneg_right (by grind) (Rat.le_of_lt hp53)
+    grind
+  have hA2 : (absR q - V) * pow2 53 ≤ absR q := by
+    have hp53 := pow2_pos 53
+    have : (absR q - V) * pow2 53 ≤ P / 2 * pow2 53 :=
+      Rat.mul_le_mul_of_nonneg_right (by grind) (Rat.le_of_lt hp53)
+    grind
+  obtain ⟨habs1, habs2⟩ := absR_eq q
+  by_cases hneg : q < 0
+  · refine ⟨-V, ?_, ?_, ?_, ?_⟩
+    · rw [hr, if_pos (by simpa using hneg)]
+    · have hq' := habs1 hneg
+      obtain ⟨g1, g2⟩ := absR_eq (-V - q)
+      by_cases hs : -V - q < 0
+      · rw [g1 hs]
+        have : -(-V - q) = V - absR q := by rw [hq']; grind
+        rw [this]; exact hA1
+      · rw [g2 hs]
+        have : -V - q = absR q - V := by rw [hq']; grind
+        rw [this]; exact hA2
+    · intro h; grind
+    · intro _; grind
+  · refine ⟨V, ?_, ?_, ?_, ?_⟩
+    · rw [hr, if_neg (by simpa using hneg)]
+    · have hq' := habs2 hneg
+      obtain ⟨g1, g2⟩ := absR_eq (V - q)
+      by_cases hs : V - q < 0
+      · rw [g1 hs]
+        have : -(V - q) = absR q - V := by rw [hq']; grind
+        rw [this]; exact hA2
+      · rw [g2 hs]
+        have : V - q = V - absR q := by rw [hq']
+        rw [this]; exact hA1
+    · intro _; exact hMPpos
+    · intro h; exact absurd h hneg
+
+
+/-- Integers of magnitude below 2^53 are doubles: `float64(n)` is exact. -/
+theorem roundNE_intCast (n : Int) (hn : n ≠ 0) (hlo : -9007199254740992 < n) (hhi : n < 9007199254740992) :
+    roundNE (n : Rat) = .fin (n : Rat) := by
+  have hq : (n : Rat) ≠ 0 := by
+    intro h; exact hn (Rat.intCast_eq_zero_iff.mp h)
+  have ha := absR_pos _ hq
+  -- |n| as a natural number
+  have hk : absR (n : Rat) = ((n.natAbs : Nat) : Rat) := by
+    obtain ⟨g1, g2⟩ := absR_eq (n : Rat)
+    by_cases hneg : (n : Rat) < 0
+    · rw [g1 hneg]
+      have h0 : n < 0 := Rat.intCast_neg_iff.mp hneg
+      have : ((n.natAbs : Nat) : Int) = -n := by omega
+      rw [← Rat.intCast_natCast, this]; simp [Rat.intCast_neg]
+    · rw [g2 hneg]
+      have h0 : ¬ n < 0 := fun h => hneg (Rat.intCast_neg_iff.mpr h)
+      have : ((n.natAbs : Nat) : Int) = n := by omega
+      rw [← Rat.intCast_natCast, this]
+  have hk1 : (1 : Rat) ≤ ((n.natAbs : Nat) : Rat) := by
+    have : 1 ≤ n.natAbs := by omega
+    exact_mod_cast this
+  have hk2 : ((n.natAbs : Nat) : Rat) < pow2 53 := by
+    rw [pow2_of_nonneg 53 (by omega)]
+    apply Rat.natCast_lt_natCast.mpr
+    have : (53 : Int).toNat = 53 := rfl
+    rw [this]; omega
+  obtain ⟨l, hl1, hl2⟩ := exists_binade _ ha
+  rw [hk] at hl1 hl2
+  have hl_lo : 0 ≤ l := by
+    by_cases h : l < 0
+    · have := pow2_le_of_le (show l + 1 ≤ 0 by omega); rw [pow2_zero] at this; grind
+    · omega
+  have hl_hi : l ≤ 52 := by
+    by_cases h : 52 < l
+    · have := pow2_le_of_le (show (53 : Int) ≤ l by omega); grind
+    · omega
+  have e1 : l - 52 + 52 = l := by omega
+  have e2 : l - 52 + 53 = l + 1 := by omega
+  obtain ⟨hr, _⟩ := roundNE_spec (n : Rat) hq (l - 52) (by unfold minExp; omega) (by omega)
+    (by rw [e1, hk]; exact hl1) (by rw [e2, hk]; exact hl2)
+  -- the scaled value is the natural number |n|·2^(52-l)
+  have hinv := pow2_neg_mul (l - 52)
+  have hQ : pow2 (-(l - 52)) = ((2 ^ (-(l - 52)).toNat : Nat) : Rat) := pow2_of_nonneg _ (by omega)
+  have hP := pow2_pos (l - 52)
+  have hs : absR (n : Rat) / pow2 (l - 52) = ((n.natAbs * 2 ^ (-(l - 52)).toNat : Nat) : Rat) := by
+    rw [Rat.natCast_mul, ← hQ, hk]
+    generalize pow2 (-(l - 52)) = Q at *
+    generalize pow2 (l - 52) = P at *
+    have hPne : P ≠ 0 := by grind
+    have : ((n.natAbs : Nat) : Rat) * Q * P = ((n.natAbs : Nat) : Rat) := by
+      rw [Rat.mul_assoc, hinv, Rat.mul_one]
+    calc ((n.natAbs : Nat) : Rat) / P = (((n.natAbs : Nat) : Rat) * Q * P) / P := by rw [this]
+      _ = ((n.natAbs : Nat) : Rat) * Q := Rat.mul_div_cancel hPne
+  rw [hs, roundHalfEven_natCast] at hr
+  have hv : ((n.natAbs * 2 ^ (-(l - 52)).toNat : Nat) : Rat) * pow2 (l - 52) = ((n.natAbs : Nat) : Rat) := by
+    rw [Rat.natCast_mul, ← hQ, Rat.mul_assoc, hinv, Rat.mul_one]
+  rw [hv] at hr
+  rw [hr]
+  obtain ⟨g1, g2⟩ := absR_eq (n : Rat)
+  by_cases hneg : (n : Rat) < 0
+  · rw [if_pos (by simpa using hneg), ← hk, g1 hneg]; simp
+  · rw [if_neg (by simpa using hneg), ← hk, g2 hneg]
+
+theorem ofInt_exact (n : Int) (hn : n ≠ 0) (hlo : -9007199254740992 < n) (hhi : n < 9007199254740992) :
+    ofInt n = .fin (n : Rat) := roundNE_intCast n hn hlo hhi
+
+theorem ofInt_zero : ofInt 0 = .zero false := by
+  unfold ofInt roundNE; simp
+
 end ScionTime.F64
